@@ -175,15 +175,21 @@ func runRL(t *testing.T, c rlCase) (out outcome, err error) {
 			}
 			return true
 		}
+		closeCalls := 0
 		doClose := func() {
-			if closeIssued {
+			if closeCalls >= 3 {
 				return
 			}
+			closeCalls++
 			closeIssued = true
 			wg.Add(1)
 			errs.Go(func() {
 				defer wg.Done()
 				rl.Close()
+				// every Close call - also one overlapping another - returns only when the helper goroutines have finished
+				if n, st := vk.HelpersParked("events/ratelimiting."); n > 0 {
+					errs.Failf("a Close call returned while %d helper goroutine(s) of the limiter are still parked, e.g.\n%s", n, st)
+				}
 				closeReturned.Store(true)
 			})
 		}
@@ -211,6 +217,11 @@ func runRL(t *testing.T, c rlCase) (out outcome, err error) {
 				}
 				rl.Add()
 			case "burst":
+				if o.Also == "at-expiry" && !m.idle && m.end.After(time.Now()) {
+					// sleep to the very instant the window timer fires and issue the Adds without settling:
+					// the expiry and the Adds' tokens race in the run loop
+					time.Sleep(m.end.Sub(time.Now()))
+				}
 				now := time.Now()
 				if !closeIssued {
 					if !m.idle && m.end.Equal(now) {
@@ -240,6 +251,10 @@ func runRL(t *testing.T, c rlCase) (out outcome, err error) {
 				switch o.Also {
 				case "close":
 					out.closeInFlight = true
+					doClose()
+				case "close2":
+					out.closeInFlight = true
+					doClose()
 					doClose()
 				case "cancel":
 					cancel()
@@ -423,7 +438,7 @@ func genCase(rt *rapid.T, exact bool) rlCase {
 			c.Ops = append(c.Ops, op{Kind: "add"})
 		case k <= 8:
 			c.Ops = append(c.Ops, op{Kind: "burst", N: rapid.IntRange(1, 6).Draw(rt, "n"), G: rapid.IntRange(1, 3).Draw(rt, "g"),
-				Also: rapid.SampledFrom([]string{"", "", "", "", "", "", "", "close", "cancel"}).Draw(rt, "also")})
+				Also: rapid.SampledFrom([]string{"", "", "", "", "", "at-expiry", "at-expiry", "close", "close2", "cancel"}).Draw(rt, "also")})
 		case k <= 16:
 			c.Ops = append(c.Ops, op{Kind: "adv", Adv: rapid.SampledFrom([]string{"half", "half", "end-1ns", "end", "end+1ms", "1ms", "quiet"}).Draw(rt, "adv")})
 		case k == 17 && c.Slow:
@@ -488,7 +503,7 @@ func TestCoalescingCloseRace(t *testing.T) {
 	for r := 0; r < reps; r++ {
 		for _, n := range []int{1, 2, 3, 5} {
 			for _, end := range []string{"close", "close+cancel"} {
-				c := rlCase{InitMS: 10, MaxMul: 4, Cap: 0, Ops: []op{{Kind: "burst", N: 1, G: 1}, {Kind: "adv", Adv: "half"}, {Kind: "burst", N: n, G: 2, Also: "close"}}, EndWith: end}
+				c := rlCase{InitMS: 10, MaxMul: 4, Cap: 0, Ops: []op{{Kind: "burst", N: 1, G: 1}, {Kind: "adv", Adv: "half"}, {Kind: "burst", N: n, G: 2, Also: []string{"close", "close2"}[r%2]}}, EndWith: end}
 				out, err := runRL(t, c)
 				if err != nil {
 					t.Fatalf("C09 coalescing rate limiter violated: %v\ncase: %s", err, c)
